@@ -1,4 +1,5 @@
 import PPProofs.Props.C06
+import PPProofs.Props.C06Term
 #print axioms PP.Parse.no_indexerror_escapes
 #print axioms PP.Parse.parse_match_forward
 #print axioms PP.Parse.parse_locations_inside
@@ -10,3 +11,15 @@ import PPProofs.Props.C06
 #print axioms PP.Parse.parse_noIdx
 #print axioms PP.Parse.parseImpl_idx
 #print axioms PP.LineCol.C14_linecol_consistent
+#print axioms PP.Parse.acyclic_terminates
+#print axioms PP.Parse.acyclic_terminates_uniform
+#print axioms PP.Parse.parseString_terminates
+#print axioms PP.Parse.scanString_terminates
+#print axioms PP.Parse.advancing_of_nonempty
+#print axioms PP.Parse.exG_advancing
+#print axioms PP.Parse.rankOk_spec
+#print axioms PP.Parse.consumes_sound
+#print axioms PP.Parse.advancing_of_advOk
+#print axioms PP.Parse.acyclic_terminates_checked
+#print axioms PP.Parse.entry_points_terminate_checked
+#print axioms PP.Parse.acyclic_terminates_depth
